@@ -33,7 +33,8 @@ IsUL(p) == p.src = "access"
 IsDL(p) == p.src = "core"
 PdrsOf4(s) == RangeOf(s.pdrs)
 DlPdrs(s) == {p \in PdrsOf4(s) : IsDL(p)}
-UeAddrs(s) == {p.ue : p \in DlPdrs(s)}
+\* (a session whose downlink PDRs were all removed keeps the address its uplink PDRs name)
+UeAddrs(s) == IF DlPdrs(s) # {} THEN {p.ue : p \in DlPdrs(s)} ELSE {p.ue : p \in {x \in PdrsOf4(s) : IsUL(x)}}
 SessUe(s) == CHOOSE a \in UeAddrs(s) : TRUE
 
 NormPorts(r) == IF IsWildPorts(r) THEN WildPorts ELSE r
@@ -116,10 +117,11 @@ TermOK(t, s, p, c) ==
        /\ (~drop /\ HasFlowQer(s, p)) => e.tc = TcOf(c, FlowQer(s, p).qfi)
        /\ (~drop /\ IsDL(p) /\ HasFlowQer(s, p)) => e.qfi = FlowQer(s, p).qfi
 
+SessWithUe(sess) == {u \in DOMAIN sess : UeAddrs(sess[u]) # {}}
 ExpTermKeys(t, sess, c, dir) ==
-  UNION {{TermKey(t, sess[u], p, c) : p \in {x \in PdrsOf4(sess[u]) : x.src = dir}} : u \in SessWithDl(sess)}
+  UNION {{TermKey(t, sess[u], p, c) : p \in {x \in PdrsOf4(sess[u]) : x.src = dir}} : u \in SessWithUe(sess)}
 TermsOK(t, sess, c) ==
-  /\ \A u \in SessWithDl(sess) : \A p \in PdrsOf4(sess[u]) : (IsUL(p) \/ IsDL(p)) => TermOK(t, sess[u], p, c)
+  /\ \A u \in SessWithUe(sess) : \A p \in PdrsOf4(sess[u]) : (IsUL(p) \/ IsDL(p)) => TermOK(t, sess[u], p, c)
   /\ {<<e.ue, e.app>> : e \in t.termUL} = ExpTermKeys(t, sess, c, "access")
   /\ {<<e.ue, e.app>> : e \in t.termDL} = ExpTermKeys(t, sess, c, "core")
 
@@ -168,7 +170,7 @@ ImageDiag(t, sess, c) ==
 ----------------------------------------------------------------------------
 (* envelope of the generators *)
 SessEnvelope(s) ==
-  /\ DlPdrs(s) # {} /\ Cardinality(UeAddrs(s)) = 1 /\ SessUe(s) # Zero32
+  /\ Cardinality(UeAddrs(s)) = 1 /\ SessUe(s) # Zero32
   /\ \A p1, p2 \in PdrsOf4(s) : (p1 # p2 /\ p1.src = p2.src /\ p1.src \in {"access", "core"}) => AppFlt(p1) # AppFlt(p2) \/ HasApp(p1) # HasApp(p2)
   /\ \A p1, p2 \in DlPdrs(s) : (HasFar(s, p1) /\ HasFar(s, p2)) =>
         /\ HasBit(FarOf(s, p1).action, ActBUFF) = HasBit(FarOf(s, p2).action, ActBUFF)
